@@ -44,8 +44,8 @@ let eval inp obs =
   let rest = List.tl header in
   let ws = List.map n_of_tok (List.filteri (fun i _ -> i < nv) rest) in
   let rest = List.filteri (fun i _ -> i >= nv) rest in
-  let fcsize, diffk, mal = (match rest with
-    | [f; _; d; m] -> int_of_string f, n_of_tok d, (m = "1") | _ -> failwith "bad header") in
+  let fcsize, vcsize, diffk, mal = (match rest with
+    | [f; v; d; m] -> int_of_string f, v, n_of_tok d, (m = "1") | _ -> failwith "bad header") in
   (* mal = 1: the generator corrupted some events.  The specification stays ON until the first accepted
      event that fails wf_evb (the prefix, and corrupted events that are still well formed such as seq-1
      events with parents, are inside the theorems' domain); from then on implementation vs model only. *)
@@ -54,8 +54,11 @@ let eval inp obs =
   let q = quorum_of ws in
   (* the index is the PERSISTED engine model (VecPersist.pidx: byte tables, BranchesInfo record written by
      Flush); [s] caches its view *)
-  let p = ref (p_init nvn) in
-  let s = ref (p_view !p) and cache = ref (fcache_new (nat_of_int fcsize)) in
+  (* round 4: the COMPOSED engine (VecPersist.ceng): byte tables, BranchesInfo record, HB/LA write-through
+     caches (simplewlru.New(size, int(size))), ForklessCause LRU, dirty flag *)
+  let mkc v = (match bcache_new (n_of_tok v) (z_of_tok v) with Some c -> c | None -> failwith "cache size") in
+  let ce = ref (ce_new nvn (nat_of_int fcsize) (mkc vcsize) (mkc vcsize)) in
+  let s = ref (ce_view !ce) in
   let order = ref [] (* newest first *) and orderF = ref [] in
   let specE = ref [] (* (id, event), newest first: events the implementation accepted *) and specEF = ref [] in
   let table = ref None in
@@ -78,9 +81,9 @@ let eval inp obs =
     let out = (match op with
     | ("E" | "A" as kind) :: id :: cr :: sq :: ps ->
       let e = { eid = n_of_tok id; ecr = nat_of_tok cr; eseq = n_of_tok sq; epar = List.map n_of_tok ps } in
-      let (ok, p') = p_add !p e in
-      p := (if ok && kind = "E" then p_flush p' else p');
-      s := p_view !p;
+      let (ok, ce') = ce_add !ce e in
+      ce := (if ok && kind = "E" then ce_flush ce' else ce');
+      s := ce_view !ce;
       if ok then order := e.eid :: !order else order := !orderF;
       if iobs = "e1" then begin
         if not !mal && not (wf_evb nvn !specE e) then begin
@@ -92,27 +95,30 @@ let eval inp obs =
       if iobs = "e1" && kind = "E" then specEF := !specE;
       if int_of_nat (nbr !s) > nv then forkseen := true;
       if ok then "e1" else "eP" (* the real Add panics on a missing parent vector (typed-nil check), see notes *)
-    | ["F"] -> p := p_flush !p; s := p_view !p; orderF := !order; specEF := !specE; "f"
+    | ["F"] -> ce := ce_flush !ce; s := ce_view !ce; orderF := !order; specEF := !specE; "f"
     | ["D"] ->
       let lost = List.length !order - List.length !orderF in
-      p := p_drop !p; s := p_view !p; order := !orderF; specE := !specEF; table := None;
+      ce := ce_drop !ce; s := ce_view !ce; order := !orderF; specE := !specEF; table := None;
       "d" ^ string_of_int lost
-    | ["RI"; fc; _] ->
+    | ["RI"; fc; vc] ->
       let lost = List.length !order - List.length !orderF in
-      p := p_restart !p; s := p_view !p; order := !orderF; specE := !specEF; table := None;
-      cache := fcache_new (nat_of_tok fc);   (* a new Index has an empty ForklessCause LRU *)
+      (* a new Index object: empty ForklessCause LRU and new HB/LA caches of the given sizes *)
+      ce := ce_restart (nat_of_tok fc) (mkc vc) (mkc vc) !ce; s := ce_view !ce;
+      order := !orderF; specE := !specEF; table := None;
       "r" ^ string_of_int lost
     | ["DB"; k] ->
       let r = lastn (int_of_string k) (List.rev !orderF) in
       let g tbl id = (match alookup id tbl with Some b -> hex_of_bytes b | None -> "~") in
-      "b" ^ join "/" (List.map (fun id -> ntok id ^ "=" ^ g !p.p_db.pd_hb id ^ ":" ^ g !p.p_db.pd_la id ^ ":" ^ g !p.p_db.pd_br id) r)
+      let db = !ce.ce_p.p_db in
+      "b" ^ join "/" (List.map (fun id -> ntok id ^ "=" ^ g db.pd_hb id ^ ":" ^ g db.pd_la id ^ ":" ^ g db.pd_br id) r)
+        ^ "+B" ^ (match db.pd_bi with Some b -> hex_of_bytes (enc_bi b) | None -> "~")
     | ["Q"; k; ord] ->
       let r = lastn (int_of_string k) (List.rev !order) in
       let pairs = List.concat_map (fun a -> List.map (fun b -> (a, b)) r) r in
       let run () =
         let tbl = Hashtbl.create 64 in
-        List.iter (fun (a, b) -> let (res, c') = fc_query ws q !s !cache a b in
-                    cache := c'; Hashtbl.replace tbl (a, b) res)
+        List.iter (fun (a, b) -> let (res, ce') = ce_query ws q !ce a b in
+                    ce := ce'; Hashtbl.replace tbl (a, b) res)
           (if ord = "1" then List.rev pairs else pairs);
         bits (List.map (fun p -> Hashtbl.find tbl p) pairs) in
       let b1 = run () in let b2 = run () in
@@ -126,7 +132,7 @@ let eval inp obs =
     | ["M"; k] ->
       let r = lastn (int_of_string k) (List.rev !order) in
       let one id =
-        let m = merged !s id in
+        let (m, ce') = ce_merged !ce id in ce := ce';   (* GetMergedHighestBefore through the HB cache *)
         let sp = merged_spec_t nvn !specE (get_table ()) id in
         let sp_tok = csv (fun (f, x) -> if f then "F" else ntok x) sp in
         let m_tok = csv hb_tok_a m in
